@@ -169,6 +169,7 @@ func vbBuildSchema(a *vbSchemaAttrs, additions bool) *vbSchema {
 	if a.fInOneof {
 		o := &vbOneof{name: "o", synthetic: a.fSynthetic}
 		fld.oneof = o
+		fld.proto3Optional = a.fSynthetic
 		m.oneofs = append(m.oneofs, o)
 	}
 	m.fields = append(m.fields, fld)
